@@ -514,7 +514,10 @@ func NewHAMTDirectoryFromNode(dserv ipld.DAGService, node ipld.Node) (*HAMTDirec
 		return nil, err
 	}
 	dir.shard = shard
-	dir.totalLinks = len(node.Links())
+	// The root node's links are the root shard's slots (values and sub-shards),
+	// not the directory's entries: the entry count is unknown until it is
+	// needed (see countLinks).
+	dir.totalLinks = totalLinksUnknown
 
 	return dir, nil
 }
@@ -1037,7 +1040,7 @@ func (d *HAMTDirectory) AddChild(ctx context.Context, name string, nd ipld.Node)
 		d.removeFromSizeChange(oldChild.Name, oldChild.Cid)
 	}
 	d.addToSizeChange(name, nd.Cid())
-	if oldChild == nil {
+	if oldChild == nil && d.totalLinks != totalLinksUnknown {
 		d.totalLinks++
 	}
 	return nil
@@ -1078,7 +1081,9 @@ func (d *HAMTDirectory) RemoveChild(ctx context.Context, name string) error {
 
 	if oldChild != nil {
 		d.removeFromSizeChange(oldChild.Name, oldChild.Cid)
-		d.totalLinks--
+		if d.totalLinks != totalLinksUnknown {
+			d.totalLinks--
+		}
 	}
 
 	return nil
@@ -1149,6 +1154,14 @@ func (d *HAMTDirectory) needsToSwitchToBasicDir(ctx context.Context, name string
 		return false, err
 	}
 
+	// The link count only matters with a MaxLinks limit. A directory loaded
+	// from a node does not know it yet: count the entries once.
+	if d.maxLinks > 0 && d.totalLinks == totalLinksUnknown {
+		if err := d.countLinks(ctx); err != nil {
+			return false, err
+		}
+	}
+
 	// Calculate new total link count after this operation
 	newTotalLinks := d.totalLinks
 	if nodeToAdd != nil {
@@ -1197,6 +1210,26 @@ func (d *HAMTDirectory) needsToSwitchToBasicDir(ctx context.Context, name string
 	}
 
 	return canSwitchSize && canSwitchMaxLinks, nil
+}
+
+// totalLinksUnknown marks the totalLinks of a HAMTDirectory loaded from a node
+// whose entries have not been counted yet.
+const totalLinksUnknown = -1
+
+// countLinks sets totalLinks to the number of entries by enumerating the
+// directory (all shards must be accessible).
+func (d *HAMTDirectory) countLinks(ctx context.Context) error {
+	ctx, cancel := context.WithCancel(ctx)
+	defer cancel()
+	n := 0
+	for linkResult := range d.EnumLinksAsync(ctx) {
+		if linkResult.Err != nil {
+			return linkResult.Err
+		}
+		n++
+	}
+	d.totalLinks = n
+	return nil
 }
 
 // linkSizeFor returns the size contribution of a link based on the current estimation mode.
